@@ -9,6 +9,7 @@ import Driver.Blk
 import Driver.Tmo
 import Driver.Kv
 import Driver.LockTrace
+import Driver.Zip
 
 def main (args : List String) : IO UInt32 := do
   match args with
@@ -22,4 +23,5 @@ def main (args : List String) : IO UInt32 := do
   | ["tmo"] => Drv.run DrvTmo.comp
   | ["kv"] => Drv.run DrvKv.comp
   | ["locktrace"] => Drv.run DrvLockTrace.comp
+  | ["zip"] => Drv.run DrvZip.comp
   | _ => IO.eprintln "usage: driver <component>"; return 2
